@@ -15,11 +15,11 @@ pub struct Live {
 }
 
 #[derive(Clone, Copy, PartialEq)]
-pub enum Profile { Graph, Kv, Alias, Index, Txn, Search, All, Hash, Big }
+pub enum Profile { Graph, Kv, Alias, Index, Txn, Search, All, Hash, Big, BigPath }
 
 pub fn profile_of(s: &str) -> Profile {
     match s { "graph" => Profile::Graph, "kv" => Profile::Kv, "alias" => Profile::Alias, "index" => Profile::Index,
-              "txn" => Profile::Txn, "search" => Profile::Search, "big" => Profile::Big, "hash" => Profile::Hash, _ => Profile::All }
+              "txn" => Profile::Txn, "search" => Profile::Search, "big" => Profile::Big, "bigpath" => Profile::BigPath, "hash" => Profile::Hash, _ => Profile::All }
 }
 
 pub fn gen_key(r: &mut Rng) -> DbValue {
@@ -350,7 +350,7 @@ pub fn gen_select(r: &mut Rng, live: &Live, p: Profile) -> Q {
 // a key "ok" present on part of the elements and many edges; then targeted searches:
 // ordering with ties + limit/offset beyond 16 results, path searches whose conditions fail on some
 // elements without stopping, and condition lists that chain a traversal-stopping condition with `or`.
-pub fn gen_big_build(r: &mut Rng, live: &Live, stage: usize) -> Q {
+pub fn gen_big_build(r: &mut Rng, live: &Live, stage: usize, dense: bool) -> Q {
     let kv = |k: &str, v: DbValue| DbKeyValue { key: DbValue::String(k.into()), value: v };
     let elem_kvs = |r: &mut Rng| {
         let mut l = vec![kv("g", DbValue::I64(r.below(3) as i64))];
@@ -359,11 +359,11 @@ pub fn gen_big_build(r: &mut Rng, live: &Live, stage: usize) -> Q {
         l
     };
     if stage == 0 || live.nodes.len() < 4 {
-        let n = r.range(12, 30);
+        let n = if dense { r.range(5, 9) } else { r.range(12, 30) };
         Q::InsertNodes(0, Qvalues::Multi((0..n).map(|_| elem_kvs(r)).collect()), vec![], Qids::Ids(vec![]))
     } else {
         let pick = |r: &mut Rng, k: u64| -> Vec<Qid> { (0..k).map(|_| Qid::Id(*r.pick(&live.nodes))).collect() };
-        if r.chance(1, 2) {
+        if !dense && r.chance(1, 2) {
             let (a, b) = (r.range(3, 6), r.range(3, 6));
             Q::InsertEdges(Qids::Ids(pick(r, a)), Qids::Ids(pick(r, b)), Qvalues::Multi((0..a * b).map(|_| elem_kvs(r)).collect()), true, Qids::Ids(vec![]))
         } else {
@@ -395,11 +395,11 @@ fn stopping_cond(r: &mut Rng, live: &Live, and: bool) -> Cond {
     }
 }
 
-pub fn gen_big_search(r: &mut Rng, live: &Live) -> Search {
+pub fn gen_big_search(r: &mut Rng, live: &Live, path_only: bool) -> Search {
     let n = (live.nodes.len() + live.edges.len()) as u64;
     let s = |k: &str| DbValue::String(k.into());
     let node = |r: &mut Rng| if live.nodes.is_empty() { Qid::Id(1) } else { Qid::Id(*r.pick(&live.nodes)) };
-    match r.below(3) {
+    match if path_only { 1 } else { r.below(3) } {
         0 => { // ordering with ties and a cut inside a large result
             let alg = ['b', 'd', 'e'][r.below(3) as usize];
             let mut order = vec![(r.chance(1, 2), s(["g", "g", "missing", "w"][r.below(4) as usize]))];
@@ -429,4 +429,72 @@ pub fn gen_big_search(r: &mut Rng, live: &Live) -> Search {
             Search { alg, origin, dest, limit: 0, offset: 0, order: vec![], conds }
         }
     }
+}
+
+
+// BigPath builder: a handful of nodes, two to four routes of different hop counts between the first and the
+// last node, and the key "ok" on a random subset of nodes and edges: the cheapest path (pass = 1, fail = 2) is
+// often NOT the one with the fewest elements.
+pub fn gen_routes_build(r: &mut Rng, live: &Live, stage: usize) -> Q {
+    let kv_ok = DbKeyValue { key: DbValue::String("ok".into()), value: DbValue::I64(1) };
+    if stage == 0 || live.nodes.len() < 3 {
+        return Q::InsertNodes(r.range(5, 8), Qvalues::Single(vec![]), vec![], Qids::Ids(vec![]));
+    }
+    let first = live.nodes[0];
+    let last = *live.nodes.last().unwrap();
+    let mids: Vec<i64> = live.nodes[1..live.nodes.len() - 1].to_vec();
+    if stage == 1 {
+        // route A through the first a intermediate nodes, route B through the next b > a ones
+        let a = r.range(1, 2).min(mids.len() as u64) as usize;
+        let b = (a + 1 + r.below(2) as usize).min(mids.len().saturating_sub(a));
+        let mut from = vec![]; let mut to = vec![];
+        for route in [&mids[..a], &mids[a..a + b]] {
+            let mut prev = first;
+            for m in route { from.push(Qid::Id(prev)); to.push(Qid::Id(*m)); prev = *m; }
+            from.push(Qid::Id(prev)); to.push(Qid::Id(last));
+        }
+        return Q::InsertEdges(Qids::Ids(from), Qids::Ids(to), Qvalues::Single(vec![]), false, Qids::Ids(vec![]));
+    }
+    if stage == 2 {
+        // a random extra route first -> (k distinct intermediate nodes) -> last
+        let mut from = vec![]; let mut to = vec![];
+        let k = r.below(4).min(mids.len() as u64) as usize;
+        let mut pool = mids.clone();
+        let mut prev = first;
+        for _ in 0..k {
+            let i = r.below(pool.len() as u64) as usize;
+            let m = pool.remove(i);
+            from.push(Qid::Id(prev)); to.push(Qid::Id(m)); prev = m;
+        }
+        from.push(Qid::Id(prev)); to.push(Qid::Id(last));
+        return Q::InsertEdges(Qids::Ids(from), Qids::Ids(to), Qvalues::Single(vec![]), false, Qids::Ids(vec![]));
+    }
+    if stage == 3 {
+        // "ok" on (almost) all elements
+        let mut ids: Vec<Qid> = vec![];
+        for id in live.nodes.iter().chain(live.edges.iter()) { if r.chance(9, 10) { ids.push(Qid::Id(*id)); } }
+        if ids.is_empty() { ids.push(Qid::Id(first)); }
+        return Q::InsertValues(Qids::Ids(ids), Qvalues::Single(vec![kv_ok]));
+    }
+    // stage >= 4: one intermediate node and its outgoing (even stage) / incoming (odd stage) edges lose "ok":
+    // every route through it now consists of failing elements
+    let m = if mids.is_empty() { first } else if stage <= 5 { mids[0] } else { mids[(r.below(mids.len() as u64)) as usize] };
+    let near = Cond { and: true, modifier: "none", data: CondData::Distance(CC::Le(1)) };
+    let (o, d) = if stage % 2 == 0 { (Qid::Id(m), Qid::Id(0)) } else { (Qid::Id(0), Qid::Id(m)) };
+    Q::RemoveValues(Qids::Search(Box::new(Search { alg: 'b', origin: o, dest: d, limit: 0, offset: 0, order: vec![], conds: vec![near] })),
+                    vec![DbValue::String("ok".into())])
+}
+
+pub fn gen_routes_search(r: &mut Rng, live: &Live) -> Search {
+    let s = |k: &str| DbValue::String(k.into());
+    let (o, d) = if live.nodes.len() >= 2 && r.chance(3, 4) { (live.nodes[0], *live.nodes.last().unwrap()) }
+                 else if live.nodes.is_empty() { (1, 2) } else { (*r.pick(&live.nodes), *r.pick(&live.nodes)) };
+    let conds = match r.below(5) {
+        0 | 1 => vec![Cond { and: true, modifier: "none", data: CondData::Keys(vec![s("ok")]) }],
+        2 => vec![Cond { and: true, modifier: "not", data: CondData::Keys(vec![s("ok")]) }],
+        3 => vec![Cond { and: true, modifier: "none", data: CondData::Keys(vec![s("ok")]) }, Cond { and: false, modifier: "none", data: CondData::Node }],
+        _ => vec![],
+    };
+    let (limit, offset) = if r.chance(4, 5) { (0, 0) } else { (r.below(6), r.below(3)) };
+    Search { alg: 'b', origin: Qid::Id(o), dest: Qid::Id(d), limit, offset, order: vec![], conds }
 }
